@@ -607,7 +607,6 @@ def run_group(ctx, g, obj):
         with CPU_SEM:
             fbbin, _ = build('h_' + c, noloops=True)
         if fbbin is not None:
-            fbproc = Proc(['cbmc', fbbin, '--json-ui', '--trace', '--object-bits', '12', '--unwind', '30'] + g['flags'] + SOLVER_ARGS['cadical'], ctx.work, MEM_KB)
             fb_started = True
 
     def fb_result(out, rc):
@@ -627,6 +626,9 @@ def run_group(ctx, g, obj):
     slots = CPU_SEM.acquire(min(NCPU, len(solvers) * g.get('weight', 1)))
     for s in solvers:
         procs[s] = Proc(base + SOLVER_ARGS[s], ctx.work, MEM_KB)
+    if fb_started:
+        # started only now, together with the proof: its 300 s budget must not run while the group waits for CPU slots
+        fbproc = Proc(['cbmc', fbbin, '--json-ui', '--trace', '--object-bits', '12', '--unwind', '30'] + g['flags'] + SOLVER_ARGS['cadical'], ctx.work, MEM_KB)
     done = {}
     # thorough: triple budget, except for optional groups (known not to discharge within their budget: no point in waiting three times as long)
     deadline = time.time() + g['timeout'] * (3 if (ctx.tier == 'thorough' and not g.get('optional')) else 1)
